@@ -259,7 +259,25 @@ class Ctx:
             if field in info.fields:
                 return info
             todo.extend(info.bases)
+        # a value of a base kind narrowed by an isinstance test: the field of the (unique)
+        # declared subclass that has it
+        subs = [i for i in api.CLASSES.values() if field in i.fields and self._is_subclass(i.name, cname)]
+        if len(subs) == 1:
+            return subs[0]
         raise Unsupported(f"class {cname} has no declared field {field}")
+
+    def _is_subclass(self, c, base):
+        todo = [c]
+        seen = set()
+        while todo:
+            x = todo.pop()
+            if x == base:
+                return True
+            if x in seen or x not in api.CLASSES:
+                continue
+            seen.add(x)
+            todo.extend(api.CLASSES[x].bases)
+        return False
 
     def heap_key(self, cname, field):
         info = self._class_with_field(cname, field)
@@ -708,6 +726,8 @@ class Pure:
                 return VBool(z3.Exists([j], z3.And(rng, body)))
             if name == "len":
                 a = self.ev(e.args[0])
+                if isinstance(a, VOpt):
+                    a = a.inner
                 if isinstance(a, VSeq):
                     return VInt(z3.Length(a.t))
                 raise Unsupported("len of non-sequence")
@@ -733,6 +753,19 @@ class Pure:
             if name == "band":
                 a, b = self.ev(e.args[0]).t, self.ev(e.args[1]).t
                 return VInt(bit_and(a, b))
+            if name == "narrow":
+                a = self.ev(e.args[0])
+                if isinstance(a, VOpt):
+                    a = a.inner
+                return VObj(e.args[1].value, a.t)
+            if name.startswith("isinstance_"):
+                fn = self.ctx.funcs.setdefault(name, z3.Function(name, Obj, BOOL))
+                a = self.ev(e.args[0])
+                if isinstance(a, VOpt):
+                    return VBool(z3.And(z3.Not(a.isnone), fn(a.inner.t)))
+                if isinstance(a, VObj) and a.kind == name[len("isinstance_"):]:
+                    return VBool(True)
+                return VBool(fn(a.t))
             if name in self.ctx.specfuncs:
                 return self.ctx.call_spec(name, [self.ev(a) for a in e.args])
             if name == "or_empty":
